@@ -249,7 +249,7 @@ def o_bool_total(ctx, repo):
     rule = ctx.rule('O-BOOL-TOTAL', 'every word of the (finite) bool language, lower-cased, is a key of bool_values; '
                                     'the merge / value constants agree between resolver and constructor')
     S = repo.cls('constructor.SafeConstructor')
-    bv = A.const_value(S.attrs['bool_values'][-1]) if 'bool_values' in S.attrs else None
+    bv = A.fold_value(S.attrs['bool_values'][-1], S.module) if 'bool_values' in S.attrs else None
     if not isinstance(bv, dict):
         raise AnalysisError('SafeConstructor.bool_values is not a literal dict')
     d = L.tag('bool')
